@@ -209,6 +209,15 @@ func C03(c *Ctx) {
 		c.RunSym(SymJob{Name: fmt.Sprintf("digraph n=%d E=%d", sh[0], sh[1]), Eng: eng, PkgPath: RepoModule + "/LALR", Entry: "VerifDigraph",
 			Args: []int{sh[0], sh[1]}, Replay: ReplaySpec{Kind: "repo", PkgDirs: []string{"LALR"}}})
 	}
+	// base sets of size 3 with spare capacity / empty base sets: aliasing between result sets
+	sized := [][3]int{{4, 3, 1003}}
+	if c.Thorough() {
+		sized = append(sized, [3]int{4, 4, 1003}, [3]int{5, 4, 11003}, [3]int{5, 4, 33003})
+	}
+	for _, sh := range sized {
+		c.RunSym(SymJob{Name: fmt.Sprintf("digraph n=%d E=%d sizes=%d", sh[0], sh[1], sh[2]), Eng: eng, PkgPath: RepoModule + "/LALR", Entry: "VerifDigraphSized",
+			Args: []int{sh[0], sh[1], sh[2]}, Replay: ReplaySpec{Kind: "repo", PkgDirs: []string{"LALR"}}})
+	}
 	c.NeedCovers("cycle", "acyclic")
 }
 
